@@ -40,7 +40,8 @@ Scan(t) ==
                              fds |-> IF hasfrac THEN DigitSeq(t, iend + 1, fend) ELSE <<>>,
                              isint |-> ~hasfrac /\ ~hase,
                              eneg |-> hase /\ At(t, fend + 1) = 45,
-                             eabs |-> IF hase THEN SmallDec(DigitSeq(t, es, eend), 1, 0) ELSE 0]
+                             ehuge |-> hase /\ eend - es > 6 /\ At(t, es) # 48,                 \* seven and more exponent digits (no leading zero): beyond any range
+                             eabs |-> IF hase /\ eend - es <= 6 THEN SmallDec(DigitSeq(t, es, eend), 1, 0) ELSE 0]
 
 Two63 == FromDigits(<<9,2,2,3,3,7,2,0,3,6,8,5,4,7,7,5,8,0,8>>)
 Two64 == FromDigits(<<1,8,4,4,6,7,4,4,0,7,3,7,0,9,5,5,1,6,1,6>>)
@@ -58,6 +59,9 @@ AtLeastMaxFinite(D, k) == IF k >= 0 THEN DLeq(MaxFinite, MulPow10(D, k)) ELSE DL
 Judge(t, cls, consumed, bits) ==
     LET sc == Scan(t) IN
     IF ~sc.ok THEN (IF sc.why \in {"unspecified-trailing-dot", "unspecified-leading-dot", "unspecified-dot-after-exponent", "unspecified-hex"} THEN TRUE ELSE cls = 0)
+    ELSE IF sc.ehuge THEN (IF FromDigits(sc.ids \o sc.fds) = <<>> \/ Len(sc.ids \o sc.fds) > 100000 THEN TRUE
+                           ELSE IF sc.eneg THEN TRUE                                     \* (far below the smallest subnormal: see the recorded underflow finding)
+                           ELSE cls = 0)                                                  \* 1e4294967297: far beyond the range, whatever the counter width
     ELSE IF sc.eabs > 100000 THEN TRUE                                                   \* absurd exponents are not generated
     ELSE LET D  == FromDigits(sc.ids \o sc.fds)
              k  == (IF sc.eneg THEN 0 - sc.eabs ELSE sc.eabs) - Len(sc.fds)
